@@ -1,15 +1,166 @@
 import Uflow.Model.HalfConn
+import Uflow.Lemmas.PSendHistDemo
 
-/-! # C05 (theorems are being added) -/
+/-!
+# C05 — ordering, sender side (`packet_sender.rs`)
+
+The sender `Uflow.PSend` is driven by an arbitrary sequence of the four operations the half
+connection performs on it (`Uflow.Props.C20.Op`: `enqueue_packet`, `emit_packet(flush_id)`,
+`acknowledge(receiver_base_id)` with any — possibly forged — base id, `acknowledge_fragment`).
+`PSend.runH` is `C20.run` instrumented with a ghost history `PSend.Hist`:
+
+* `enqueued` — the submitted packets `(data, channel, mode, flush id)` in submission order;
+* `emitted` — the packets `emit_packet` returned, in emission order, as `PSend.Emitted` records
+  `(uid, sequenceId, channelId, mode, data, windowParentLead, channelParentLead)` plus the ghost
+  fields `flushId` (of the consumed queue entry) and `baseAt` (`base_id` at emission time).
+
+The receiver-side half of C05 is in the `PRecv` lemmas.
+-/
 
 namespace Uflow.Props.C05
 
-open Uflow
+open Uflow Uflow.PSend
+open Uflow.Props.C20 (Op)
 
 /-- `pidSub` yields a 20-bit value. -/
 theorem C05_pidSub_lt (a b : Nat) : pidSub a b < 2^20 := by
   unfold pidSub
   simp only [Uflow.Gen.PACKET_ID_SPAN]
   omega
+
+/-- The ghost history is only an observer: the state component of `runH` is `C20.run`. -/
+theorem C05_ghost_run_state (s : State) (h : Hist) (ops : List Op) :
+    (runH s h ops).map (·.1) = Uflow.Props.C20.run s ops := runH_state s h ops
+
+/-- The ghost record `mkEmitted s f p` written when `emit_packet(f)` returns packet `p` is faithful:
+its `(data, channel, mode, flush id)` is the queue entry that `emit_packet` consumed — the first
+entry of the send queue behind a prefix of stale TimeSensitive entries (which are dropped) — and its
+ghost `mode` agrees with what the `PendingPacket` exposes (`resend` flag, expiry flush id). -/
+theorem C05_ghost_entry_sound (s s' : State) (f : Nat) (p : Pending) (resend : Bool)
+    (h : emit s f = .ok (s', some (p, resend))) :
+    ∃ dropped rest, s.queue = dropped ++ (mkEmitted s f p).toQ :: rest ∧
+      (∀ d ∈ dropped, d.mode = .timeSensitive ∧ d.flushId ≠ f) ∧
+      ¬ ((mkEmitted s f p).mode = .timeSensitive ∧ (mkEmitted s f p).flushId ≠ f) ∧
+      s'.queue = rest ∧
+      (resend = true ↔ ((mkEmitted s f p).mode = .persistent ∨ (mkEmitted s f p).mode = .reliable)) ∧
+      p.expiry = (if (mkEmitted s f p).mode = .timeSensitive then some (mkEmitted s f p).flushId else none) := by
+  obtain ⟨dropped, queue, total, hq, hd, hcase⟩ := emit_spec s s' f _ h
+  rcases hcase with ⟨hc, _⟩ | ⟨q, rest, p', resend', chanPar, rfl, hr, hns, _, _, _, _, hpd, hpc, _, _, _,
+    hexp, hres, rfl⟩
+  · cases hc
+  · simp only [Option.some.injEq, Prod.mk.injEq] at hr
+    obtain ⟨rfl, rfl⟩ := hr
+    have hcons := consumed_eq s f dropped q rest hq hd hns
+    have e_toQ : (mkEmitted s f p).toQ = q := by
+      simp only [mkEmitted, Emitted.toQ, hcons, hpd, hpc]
+    have e_mode : (mkEmitted s f p).mode = q.mode := by simp only [mkEmitted, hcons]
+    have e_fl : (mkEmitted s f p).flushId = q.flushId := by simp only [mkEmitted, hcons]
+    rw [e_toQ, e_mode, e_fl]
+    exact ⟨dropped, rest, hq, hd, hns, rfl, hres, hexp⟩
+
+/-- **Emission order = submission order; only TimeSensitive packets are dropped.**
+After any run of the sender (any window size, base id, arguments), the emitted packets followed by
+the packets still queued are, as `(data, channel, mode, flush id)` entries,
+* a subsequence of the submitted packets in submission order,
+* with exactly the same non-TimeSensitive entries in the same order,
+i.e. (third clause, `PSend.OnlyTSRemoved`) they are the submitted list with some TimeSensitive
+entries removed. In particular the emitted packets are a subsequence of the submitted ones, and a
+submitted packet that was neither emitted nor is still queued is TimeSensitive. -/
+theorem C05_emit_order (w b a : Nat) (ops : List Op) (s' : State) (h' : Hist)
+    (h : runH (init w b a) {} ops = .ok (s', h')) :
+    (h'.emitted.map Emitted.toQ ++ s'.queue).Sublist h'.enqueued ∧
+    h'.enqueued.filter (fun q => decide (q.mode ≠ .timeSensitive)) =
+      (h'.emitted.map Emitted.toQ ++ s'.queue).filter (fun q => decide (q.mode ≠ .timeSensitive)) ∧
+    OnlyTSRemoved (h'.emitted.map Emitted.toQ ++ s'.queue) h'.enqueued := by
+  have hq := (qinv_runH ops _ _ (qinv_init w b a) s' h' h).1
+  exact ⟨hq.1, hq.2, onlyTSRemoved_of_sublist _ _ hq.1 hq.2⟩
+
+/-- Corollary of `C05_emit_order`: the emitted packets alone are a subsequence of the submitted
+packets (same data / channel / mode / flush id, same relative order). -/
+theorem C05_emitted_sublist (w b a : Nat) (ops : List Op) (s' : State) (h' : Hist)
+    (h : runH (init w b a) {} ops = .ok (s', h')) :
+    (h'.emitted.map Emitted.toQ).Sublist h'.enqueued :=
+  (List.sublist_append_left _ _).trans (C05_emit_order w b a ops s' h' h).1
+
+/-- **Sequence ids and packet identities are consecutive in emission order.** From
+`PacketSender::new(w, b, a)` with a valid base id (`b < 2^20`) and `w < 2^20` (the library asserts
+`w ≤ 4096`), the `i`-th emitted packet (counting from 0) has sequence id `packet_id::add(b, i)`
+(20-bit wrap) and identity `i`; `next_id` is `add(b, number emitted)`. -/
+theorem C05_ids_consecutive (w b a : Nat) (hw : w < 2^20) (hb : b < 2^20) (ops : List Op)
+    (s' : State) (h' : Hist) (h : runH (init w b a) {} ops = .ok (s', h')) :
+    (∀ i e, h'.emitted[i]? = some e → e.uid = i ∧ e.sequenceId = pidAdd b i) ∧
+    s'.nextId = pidAdd b h'.emitted.length ∧ s'.nextUid = h'.emitted.length := by
+  have hi := hinv_run_init w b a hw hb ops s' h' h
+  exact ⟨fun i e he => ⟨(hi.ids i e he).1, (hi.ids i e he).2.1⟩, hi.nid, hi.nuid⟩
+
+/-- Hence two packets emitted fewer than `2^20` positions apart carry different sequence ids. -/
+theorem C05_ids_distinct (w b a : Nat) (hw : w < 2^20) (hb : b < 2^20) (ops : List Op)
+    (s' : State) (h' : Hist) (h : runH (init w b a) {} ops = .ok (s', h'))
+    (i j : Nat) (x y : Emitted) (hx : h'.emitted[i]? = some x) (hy : h'.emitted[j]? = some y)
+    (hij : i < j) (hd : j - i < 2^20) : x.sequenceId ≠ y.sequenceId := by
+  obtain ⟨hids, _, _⟩ := C05_ids_consecutive w b a hw hb ops s' h' h
+  rw [(hids i x hx).2, (hids j y hy).2]
+  intro heq
+  have := pidAdd_inj b i j (by omega) hd heq
+  omega
+
+/-- The hypothesis `b < 2^20` of `C05_ids_consecutive` is needed (the model, like the code, uses the
+given base id unmasked for the first packet). -/
+theorem C05_ids_consecutive_needs_valid_base :
+    (match runH (init 8 (2^20 + 5) 1000) {} [.enq [1] 0 .reliable 0, .emit 0] with
+     | .ok (_, h) => h.emitted.map (·.sequenceId) == [2^20 + 5] && pidAdd (2^20 + 5) 0 == 5
+     | .error _ => false) = true := by decide +kernel
+
+/-- **Window bound.** In every reachable state the number of packets outstanding (window entries,
+`= sub(next_id, base_id)`) is at most `window_size`, and every emission happened with fewer than
+`window_size` packets outstanding. (Hypotheses as for `C05_ids_consecutive`.) -/
+theorem C05_window_bound (w b a : Nat) (hw : w < 2^20) (hb : b < 2^20) (ops : List Op)
+    (s' : State) (h' : Hist) (h : runH (init w b a) {} ops = .ok (s', h')) :
+    s'.windowSize = w ∧ s'.win.length = pidSub s'.nextId s'.baseId ∧ s'.win.length ≤ w ∧
+    (∀ (i : Nat) (e : Emitted), h'.emitted[i]? = some e → pidSub e.sequenceId e.baseAt < w) := by
+  have hi := hinv_run_init w b a hw hb ops s' h' h
+  obtain ⟨old, wl, wi⟩ := hi.win
+  have hn : h'.emitted.length = old.length + wl.length := by rw [wi.em_eq, List.length_append]
+  have hwle := wi.wle
+  refine ⟨hi.wsz, ?_, by rw [← wi.wlen]; exact wi.wle, fun i e he => (hi.leads i e he).2.2.1⟩
+  rw [hi.nid, wi.base, pidSub_pidAdd _ _ _ (by omega) (by omega), ← wi.wlen]
+  omega
+
+/-- **Allocation bound** (no hypotheses; cf. `C06_emit_alloc_le`): in every reachable state the
+fragment-rounded bytes outstanding are within the (rounded) limit. -/
+theorem C05_alloc_bound (w b a : Nat) (ops : List Op) (s' : State) (h' : Hist)
+    (h : runH (init w b a) {} ops = .ok (s', h')) : s'.alloc ≤ s'.maxAlloc :=
+  (qinv_runH ops _ _ (qinv_init w b a) s' h' h).2
+
+/-! ### non-vacuity -/
+
+/-- The example history `PSend.histOps` (four modes, two channels, two stale TimeSensitive drops,
+ids wrapping past `2^20`, an `acknowledge` that removes the Reliable parent from the window)
+satisfies the hypotheses of all theorems above; its outcome is `PSend.histOps_run`. -/
+example : ∃ s' h', runH (init 8 histBase 100000) {} histOps = .ok (s', h') ∧ (8 : Nat) < 2^20 ∧
+    histBase < 2^20 := by
+  obtain ⟨s', h', h⟩ := histOps_ok
+  exact ⟨s', h', h, by decide, by decide⟩
+
+/-- In that history two of the ten submitted packets are dropped (both TimeSensitive), eight are
+emitted in submission order and the ids wrap. -/
+example :
+    (match runH (init 8 histBase 100000) {} histOps with
+     | .ok (s, h) =>
+       h.emitted.map (·.data) == [[2, 2], [3], [4], [5], [6], [7], [8], [10]] &&
+       h.enqueued.map (·.data) == [[1], [2, 2], [3], [4], [5], [6], [7], [8], [9], [10]] &&
+       (h.enqueued.filter (fun q => !(h.emitted.map Emitted.toQ ++ s.queue).contains q)).map (·.mode)
+         == [.timeSensitive, .timeSensitive] &&
+       h.emitted.map (·.sequenceId) == [1048573, 1048574, 1048575, 0, 1, 2, 3, 4]
+     | .error _ => false) = true := by decide +kernel
+
+/-- `emit` with a full window or an exhausted allocation emits nothing (window 2, limit 1448). -/
+example :
+    (match runH (init 2 0 1448) {}
+        [.enq [1] 0 .reliable 0, .enq [2] 0 .reliable 0, .enq [3] 0 .reliable 0,
+         .enq (List.replicate 1448 4) 0 .reliable 0,
+         .emit 0, .emit 0, .emit 0, .ack 2, .emit 0, .emit 0] with
+     | .ok (s, h) => h.emitted.length == 3 && s.win.length == 1 && s.queue.length == 1
+     | .error _ => false) = true := by decide +kernel
 
 end Uflow.Props.C05
